@@ -68,7 +68,8 @@ Time is exact (unit `1/L` ms, `L = lcm(1..255)`).
 ## Scope
 
 `ModWF` (decidable: `modWFb`; evaluated by the driver on every generated module as part of `seqHypB`):
-patterns non-empty, speed parameters ≥ 1, tempo parameters ≥ 20, initial speed ≥ 1 / tempo ≥ 20, at most
+patterns of 1..256 rows (so that the scan's 512-row runaway guard, which is in the model with the code's
+reset points, never fires: `C18_row_guard_idle`), speed parameters ≥ 1, tempo parameters ≥ 20, initial speed ≥ 1 / tempo ≥ 20, at most
 256 orders, restart position inside the order list; in marker formats (S3M / IT) pattern numbers 0xfe /
 0xff are never real patterns and an end marker in the order list excludes a restart position — with a
 restart position the model's `next_order` and the scan restart at different orders when an end marker
@@ -155,6 +156,8 @@ theorem C18_scan_eq_play_partial (e : PlayEnv) (ord row : Nat) (fxs rest : List 
     -- scan side: rows not visited yet, tempo sane, scan_cnt allocated
     (hfresh : ∀ r, row ≤ r → cntAt st.cnt ord r = 0) (hbpm : 20 ≤ st.bpm)
     (hlen : ord < st.cnt.length) (hrl : row + fxs.length ≤ (st.cnt.getD ord []).length)
+    -- the scan's runaway guard (`row_count_total > row_limit`, in the model since round 3) stays idle on the stretch
+    (hgl : st.rowCountTotal + fxs.length ≤ rowLimit + 1)
     -- the scan's end point is not inside the stretch
     (hend : ord = e.si.endOrd → ∀ r, row ≤ r → r < row + fxs.length → r ≠ e.si.endRow)
     -- player side: first frame of (ord,row)
@@ -171,7 +174,7 @@ theorem C18_scan_eq_play_partial (e : PlayEnv) (ord row : Nat) (fxs rest : List 
       ticks F = st'.rowStart - st.rowStart ∧
       p'.ord = ord ∧ p'.row = row + fxs.length ∧ p'.frame = 0 ∧ p'.loopCount = 0 ∧
       p'.speed = st'.speed ∧ p'.bpm = st'.bpm ∧ p'.time = st'.rowStart ∧ p'.endPoint = p.endPoint := by
-  obtain ⟨st', hs1, hd1⟩ := scanRows_nojump_app ord rest fxs row st hfx hfresh hbpm hlen hrl
+  obtain ⟨st', hs1, hd1⟩ := scanRows_nojump_app ord rest fxs row st hfx hfresh hbpm hlen hrl hgl
   obtain ⟨F, p', hrun, htr, htk, h1, h2, h3, _, _, h6, h7, h8, h9, h10, _⟩ :=
     runN_rows e ord fxs rest row p hrows hrest hfx hend ho hr hf hd hp hl hs hrd
   refine ⟨st', F, p', hs1, hrun, ?_, ?_, h1, h2, h3, h6, ?_, ?_, ?_, h10⟩
@@ -197,7 +200,7 @@ theorem exFresh : ∀ r, 0 ≤ r → cntAt exSt.cnt 0 r = 0 := by
 
 example := C18_scan_eq_play_partial exE 0 0 [.speed 3, .delay 2, .tempo 150] [Fx.none] exSt exP rfl (by simp)
   (by intro fx h; simp at h; rcases h with h | h | h <;> subst h <;> simp [Fx.isJump, Fx.WF])
-  exFresh (by simp [exSt]) (by simp [exSt]) (by show 0 + 3 ≤ 4; omega)
+  exFresh (by simp [exSt]) (by simp [exSt]) (by show 0 + 3 ≤ 4; omega) (by show 0 + 3 ≤ 512 + 1; omega)
   (by intro _ r _ h; simp at h; show r ≠ 3; omega)
   rfl rfl rfl rfl rfl rfl (by simp [exP]) rfl rfl rfl (by simp [exP, exSt, ScanSt.rowStart])
 
@@ -278,6 +281,7 @@ theorem C18_pattern_step (e : PlayEnv) (ord : Nat) (pre : List Fx) (last : Fx) (
     (hpre : ∀ fx ∈ pre, fx.isJump = false ∧ fx.WF) (hlw : last.WF) (hlast : last.isJump = true ∨ post = [])
     (hfresh : ∀ r, cntAt st.cnt ord r = 0) (hb : 20 ≤ st.bpm) (hlen : ord < st.cnt.length)
     (hrl : pre.length + 1 ≤ (st.cnt.getD ord []).length)
+    (hgl : st.rowCountTotal + (pre.length + 1) ≤ rowLimit + 1)
     (hend : ord = e.si.endOrd → e.si.endRow < pre.length + 1 → p.endPoint ≠ 0)
     (ho : p.ord = ord) (hr : p.row = 0) (hf : p.frame = 0) (hd : p.delay = 0) (hp : p.pbreak = false)
     (hj : p.jump = none) (hl : p.loopCount = 0) (hs : 1 ≤ p.speed) (hrd : p.rowdelay = 0)
@@ -287,7 +291,7 @@ theorem C18_pattern_step (e : PlayEnv) (ord : Nat) (pre : List Fx) (last : Fx) (
       e.runN F.length p = (e.enter sP ((ord2After last).getD (ord + 1))).map (fun p' => (F, p')) ∧
       st'.trace = (rowRecs F).reverse ++ st.trace ∧ ticks F = st'.rowStart - st.rowStart ∧
       sP.speed = st'.speed ∧ sP.bpm = st'.bpm ∧ sP.time = st'.rowStart ∧ sP.loopCount = 0 := by
-  obtain ⟨st', h1, hd1⟩ := scan_pattern ord pre last post 0 st hpre hlw hlast (fun r _ => hfresh r) hb hlen (by omega)
+  obtain ⟨st', h1, hd1⟩ := scan_pattern ord pre last post 0 st hpre hlw hlast (fun r _ => hfresh r) hb hlen (by omega) hgl
   obtain ⟨F, sP, hrun, hrec, htk, b1, b2, b3, b4, b5, b6, b7, b8, _⟩ :=
     play_pattern e ord pre last post 0 p (by rw [hrows]; rfl) hpre hlw hlast
       (fun h1 _ h3 => hend h1 (by omega)) ho hr hf hd hp hj hl hs hrd
@@ -303,7 +307,7 @@ scan and player at its first row -/
 example := C18_pattern_step exE 0 [.speed 3, .delay 2, .tempo 150] .none [] exSt exP rfl
   (by intro fx h; simp at h; rcases h with h | h | h <;> subst h <;> simp [Fx.isJump, Fx.WF])
   (by simp [Fx.WF]) (Or.inr rfl) (fun r => exFresh r (Nat.zero_le _)) (by simp [exSt]) (by simp [exSt])
-  (by show 3 + 1 ≤ 4; omega) (by intro _ _; show (1 : Int) ≠ 0; decide)
+  (by show 3 + 1 ≤ 4; omega) (by show 0 + (3 + 1) ≤ 512 + 1; omega) (by intro _ _; show (1 : Int) ≠ 0; decide)
   rfl rfl rfl rfl rfl rfl rfl (by simp [exP]) rfl rfl rfl (by simp [exP, exSt, ScanSt.rowStart])
 
 /-- **Cross-order simulation of one sequence** (`scan_module(ep, chain)` against `Play.run`). -/
@@ -369,7 +373,7 @@ theorem C18_order_start_time (m : LinMod) (ep chain : Nat) (ctl0 : List Nat) (in
     rw [← h5]
     unfold rowRecs
     exact List.mem_map.mpr ⟨f, List.mem_filter.mpr ⟨hf, by simp [hfr]⟩, rfl⟩
-  exact h17 (recOf f) hmem hrow hneg hlt
+  exact h17.1 (recOf f) hmem hrow hneg hlt
 
 def Outcome.isNoFuel : Outcome → Bool
   | .noFuel => true
@@ -471,6 +475,32 @@ theorem C18_loop_count (m : LinMod) (ep chain : Nat) (ctl0 : List Nat) (info0 : 
   rcases h13 with h | h
   · exact Or.inl h
   · exact Or.inr ⟨h.1, h.2.1, h.2.2.1, by rw [h7]; exact h.2.2.2⟩
+
+/-- **The scan's runaway guard never fires** for a module of the class: `row_count_total` (the rows of the
+current order visit; reset only at the bottom of the order loop, not by the `continue`s of skipped
+orders; checked against `row_limit = 512` at the top of every row, before the `scan_cnt` test) is 0 when
+`scan_module` ends, i.e. the scan did not stop through `row_count_total > row_limit` (that exit leaves
+a value above 512).  The bound that makes it so is part of `ModWF`: at most 256 rows per pattern.  (The
+guard, with exactly these reset points, is part of the model's `scanRows` / `scanOrders`; all simulation
+theorems are proved with it in place.) -/
+theorem C18_row_guard_idle (m : LinMod) (ep chain : Nat) (ctl0 : List Nat) (info0 : List OrdInfo) (e : PlayEnv)
+    (o1 : Nat) (H : SeqHyp m ep chain ctl0 info0 e o1) :
+    (scanModule m ep chain ctl0 info0).rowTotal = 0 ∧ (scanModule m ep chain ctl0 info0).rowTotal ≤ rowLimit := by
+  obtain ⟨F, s0, pF, _, _, _, _, _, _, _, _, _, _, _, _, _, _, _, h⟩ := sim_sequence m ep chain ctl0 info0 e o1 H
+  exact ⟨h, by rw [h]; exact Nat.zero_le _⟩
+
+example : (scanModule exM2 0 0 (List.replicate 256 0xff) (List.replicate 256 {})).rowTotal = 0 := by
+  obtain ⟨o1, H⟩ := exSeqHyp
+  exact (C18_row_guard_idle exM2 0 0 _ _ exE2 o1 H).1
+
+/-- the same for every sequence of `libxmp_scan_sequences` -/
+theorem C18_row_guard_idle_all (m : LinMod) (hw : ModWF m) (hok : (scanSequences m).ok = true) (k : Nat)
+    (hk : k < (scanSequences m).seqs.length) : ((scanSequences m).seqs.getD k default).res.rowTotal = 0 := by
+  obtain ⟨ctlk, infok, o1, hres, H, _⟩ := scanSequences_seqHyp m hw hok k hk
+  rw [hres]
+  exact (C18_row_guard_idle m _ k ctlk infok _ o1 H).1
+
+example := C18_row_guard_idle_all exM3 (modWFb_sound exM3 (by decide)) (by decide +kernel) 2 (by decide +kernel)
 
 /-! ## all sequences of `libxmp_scan_sequences` -/
 
